@@ -11,71 +11,96 @@ RULE_TRACE = ("seeded generators (directed operand classes: ties, powers of two,
               "(operation, operand words) tuples; non-trivial = inside the domain stated by the property "
               "(out-of-domain events are skipped, loads of operands are not counted)")
 
+def MC(cfg, what, tier="quick", slices=16):
+    return {"model": "MC_Small.tla", "cfg": cfg, "what": what, "tier": tier, "slices": slices}
+
+W_NEW = "2Sum/2Prod/new_div transcriptions on every word pair (a.hi in one binade x all words of a full small format incl. subnormals, zeros)"
+W_ADD = "Alg. 4/6 transcriptions (operator, reversed-operand and assignment copies) on all valid pairs: contract clauses, copies agree, commutativity, a-b == a+(-b), antisymmetry up to zero sign"
+W_MUL = "Alg. 9/12 transcriptions on all valid pairs: contract clauses incl. unit/power-of-two exactness, copies agree, (-a)b == -(ab) up to zero sign"
+W_DIV = "Alg. 15 and the three hand-copied long divisions + renorm3 on all valid pairs: contract clauses, copies agree, recip"
+W_REM = "rem on top of div/trunc/mul/sub transcriptions on all valid pairs: truncated-quotient contract"
+W_NOV = "the exponent-field algorithm of no_overlap against Definition 1.4 on EVERY pair of words of the format (zeros, subnormals, infinities, NaN)"
+W_FRAC = "the case splits of floor/ceil/trunc/round/fract against the exact functions on every valid value in a window wide enough for the fraction to live in hi, in lo, in both, nowhere"
+W_WIDE = "the wide-integer From macro (with the renormalisation fix) on EVERY integer of an unsigned and a signed type wider than 2P bits: valid, exact when <= 2P significant bits, else within 2^-2P"
+W_CMP = "lexicographic comparison of normalised pairs == comparison of exact values, abs, on all valid pairs of a window"
+
 PLAN = {
     "C02": {
         "level": "model_checking",
         "rule": RULE_TRACE,
+        "models": [MC("MC_P3_new.cfg", W_NEW), MC("MC_P4_new.cfg", W_NEW)],
         "traces": [T("arith_new", (250, 4000), (12, 14))],
-        "models": [],
     },
     "C03": {
         "level": "exploration",
         "rule": RULE_TRACE,
+        "models": [MC("MC_P3_addsub.cfg", W_ADD, "thorough")],
         "traces": [T("arith_add", (300, 6000), (12, 14))],
     },
     "C04": {
         "level": "exploration",
         "rule": RULE_TRACE,
+        "models": [MC("MC_P3_mul.cfg", W_MUL), MC("MC_P4_mul.cfg", W_MUL, "thorough")],
         "traces": [T("arith_mul", (400, 8000), (12, 14))],
     },
     "C05": {
         "level": "exploration",
         "rule": RULE_TRACE,
+        "models": [MC("MC_P3_div.cfg", W_DIV, "thorough")],
         "traces": [T("arith_div", (350, 7000), (12, 14))],
     },
     "C19": {
         "level": "exploration",
         "rule": RULE_TRACE,
+        "models": [MC("MC_P3_rem.cfg", W_REM)],
         "traces": [T("arith_rem", (300, 6000), (12, 14))],
     },
     "C06": {
         "level": "model_checking",
         "rule": RULE_TRACE,
+        "models": [MC("MC_P3_cmp.cfg", W_CMP), MC("MC_P4_cmp.cfg", W_CMP)],
         "traces": [T("cmp", (120, 3000), (12, 14))],
     },
     "C07": {
         "level": "model_checking",
         "rule": RULE_TRACE + "; grid07 = the complete structural grid of no_overlap at binary64: every exponent field of a (quick: every second one) x 7 significand classes x both signs x b at/just below/just above the half-ulp and quarter-ulp thresholds, zero, least subnormal, inf, NaN, both signs",
+        "models": [MC("MC_P3_nov.cfg", W_NOV), MC("MC_P4_nov.cfg", W_NOV), MC("MC_P5_nov.cfg", W_NOV, "thorough")],
         "traces": [T("grid07", (32, 16), (16, 16)), T("rand07", (3000, 60000), (4, 14))],
     },
     "C08": {
         "level": "model_checking",
         "rule": RULE_TRACE,
+        "models": [MC("MC_P3_frac.cfg", W_FRAC), MC("MC_P4_frac.cfg", W_FRAC, "thorough")],
         "traces": [T("frac", (500, 12000), (12, 14))],
     },
     "C09": {
         "level": "model_checking",
         "rule": RULE_TRACE + "; conv_small = From<i8|u8|i16|u16> and the round trip for every value of the type",
+        "models": [MC("MC_P3_wide.cfg", W_WIDE), MC("MC_P4_wide.cfg", W_WIDE)],
         "traces": [T("conv", (600, 12000), (10, 14)), T("conv_small", (1, 1), (4, 16))],
     },
     "C10": {
         "level": "model_checking",
         "rule": RULE_TRACE + "; each operand tuple is expanded into every spelling (4 reference/value forms, 2 assignment forms, 3 pairings, 5 operators, trait wrappers); the determinism memo of the specification demands identical words",
+        "models": [MC("MC_P3_mul.cfg", W_MUL), MC("MC_P3_addsub.cfg", W_ADD, "thorough")],
         "traces": [T("spell", (40, 1200), (12, 14))],
     },
     "C01": {
         "level": "model_checking",
         "rule": RULE_TRACE + "; prog = random programs of 50-200 calls over 8 registers with results fed back (the Normalised invariant is evaluated after every call)",
-        "traces": [T("prog", (12, 300), (8, 14)), T("arith_all", (100, 2000), (2, 6)), T("conv", (300, 6000), (2, 6)), T("frac", (200, 4000), (2, 4))],
+        "models": [MC("MC_P3_wide.cfg", W_WIDE), MC("MC_P3_frac.cfg", W_FRAC), MC("MC_P3_new.cfg", W_NEW), MC("MC_P3_addsub.cfg", W_ADD, "thorough"), MC("MC_P3_div.cfg", W_DIV, "thorough")],
+        "traces": [T("prog", (12, 300), (8, 14)), T("arith_all", (100, 2000), (2, 6)), T("conv", (300, 6000), (2, 6)), T("frac", (200, 4000), (2, 4)),
+                   T("grid07", (64, 16), (4, 16))],
     },
     "C11": {
         "level": "exploration",
         "rule": RULE_TRACE + "; the same seeded corpus is run by two builds of the harness (default features / --no-default-features) and the two traces are interleaved group by group: the determinism memo demands identical words across configurations; fma events are checked against the exact x*y+z",
         "traces": [T("fma", (1500, 40000), (4, 8), "std"), T("fma", (1500, 40000), (4, 8), "nostd"),
                    T("arith_all", (80, 2000), (4, 8), "std"), T("arith_all", (80, 2000), (4, 8), "nostd"),
+                   T("arith_new", (150, 3000), (4, 8), "std"), T("arith_new", (150, 3000), (4, 8), "nostd"),
                    T("frac", (100, 2000), (2, 4), "std"), T("frac", (100, 2000), (2, 4), "nostd"),
                    T("conv", (150, 3000), (2, 4), "std"), T("conv", (150, 3000), (2, 4), "nostd")],
-        "merge": [{"family": "arith_all", "variants": ["std", "nostd"]}, {"family": "frac", "variants": ["std", "nostd"]},
+        "merge": [{"family": "arith_all", "variants": ["std", "nostd"]}, {"family": "arith_new", "variants": ["std", "nostd"]}, {"family": "frac", "variants": ["std", "nostd"]},
                   {"family": "conv", "variants": ["std", "nostd"]}, {"family": "fma", "variants": ["std", "nostd"]}],
     },
     "C12": {
